@@ -254,8 +254,21 @@ def st_kv(tier, seed, d):
     m = re.search(r"(\d+) states generated, (\d+) distinct", out)
     if "No error has been found" not in out:
         raise vlib.ToolError("KVStoreMC failed:\n" + out[-1500:])
+    # the same two properties of the store model for every set of keys and values: TLAPS proof (proofs/KVStoreProof.tla)
+    import shutil as _sh, subprocess as _sp
+    pd = os.path.join(d, "proof")
+    os.makedirs(pd, exist_ok=True)
+    _sh.copy(os.path.join(VERIF, "proofs", "KVStoreProof.tla"), pd)
+    _sh.copy(os.path.join(vlib.SPEC, "KVStoreMC.tla"), pd)
+    pr = _sp.run(["timeout", "900", "tlapm", "--threads", "4", "KVStoreProof.tla"], cwd=pd, stdout=_sp.PIPE,
+                        stderr=_sp.STDOUT, text=True)
+    mp = re.search(r"All (\d+) obligations proved", pr.stdout)
+    if not mp:
+        raise vlib.ToolError("TLAPS proof KVStoreProof did not go through (a model-only result, never a VIOLATION):\n" + pr.stdout[-1500:])
     return {"violations": viol, "counts": counts, "tlc_states": states, "events": consumed, "runs": nseq, "timeouts": [],
-            "samples": samples, "model": {"config": "KVStoreMC", "states_generated": int(m.group(1)), "distinct_states": int(m.group(2))}}
+            "samples": samples, "model": {"config": "KVStoreMC", "states_generated": int(m.group(1)), "distinct_states": int(m.group(2)),
+                                          "tlaps": {"module": "proofs/KVStoreProof.tla", "theorems": ["FirstWins", "Grows"],
+                                                    "obligations_proved": int(mp.group(1)), "scope": "unbounded: every set of keys and values"}}}
 
 
 MULTI_CONFIGS = {
@@ -688,6 +701,8 @@ def decide(pid, tier, seed, t0):
 
 
 def write_evidence(pid, tier, seed, t0, method, counts, events, runs, states, samples, nviol, results, models=(), nknown=0, drift=None):
+    if os.environ.get("VERIF_NO_EVIDENCE"):     # runs against deliberately broken trees (seeded changes) leave the evidence alone
+        return
     os.makedirs(os.path.join(VERIF, "evidence"), exist_ok=True)
     nontrivial = sum(counts.values())
     mstates = sum(m.get("distinct_states", 0) for m in models)
